@@ -30,6 +30,8 @@ def build(spec, counter):
         return n.ListNodeItem((i,), kids)
     if kind == "txt":
         return n.Text((i,), f"t{i}")
+    if kind == "leaf":
+        return n.Transition((i,))  # a block-level node that is not a Parent
     if kind[0] == "c":
         txt = {"S": S, "E": E, "X": "other", "B": S}[kind[1]]
         j = counter[0]
@@ -63,7 +65,9 @@ def gen_tree(rng, depth, markers):
         r = rng.random()
         if markers and r < 0.3:
             out.append([markers.pop(rng.randrange(len(markers))), []])
-        elif r < 0.5 or depth >= 3:
+        elif r < 0.4:
+            out.append(["leaf", []])
+        elif r < 0.55 or depth >= 3:
             out.append(["para", [["txt", []] for _ in range(rng.randint(0, 2))]])
         elif r < 0.75:
             out.append(["sec", gen_tree(rng, depth + 1, markers)])
@@ -366,7 +370,7 @@ class C06(core.PropertyCheck):
             counter[0] += 1
             me = len(flat)
             flat.append([i, kind, None, list(anc)])
-            if kind[0] in "cl" and kind not in ("list",):
+            if kind[0] in "cl" and kind not in ("list", "leaf"):
                 j = counter[0]
                 counter[0] += 1
                 flat.append([j, "leaf", len(flat), list(anc) + [i]])
